@@ -8,3 +8,8 @@ import "github.com/gorilla/websocket"
 // reports whether two WriteJSON or two ReadJSON calls ever overlapped on it.
 func verifConn() *websocket.Conn
 func verifOverlap(c *websocket.Conn) bool
+
+// verifPeerWrites: the other side of the connection sends v as one JSON data
+// frame, text or binary (RFC 6455 leaves the choice to the sender; the repo's
+// own gobwas codec sends binary frames).
+func verifPeerWrites(c *websocket.Conn, v interface{}, binary bool)
